@@ -253,8 +253,8 @@ func startWorker(self string, u *Unit) (*workerProc, error) {
 	dir := u.Dir
 	if dir == "" {
 		dir = repoRoot()
-	} else if !filepath.IsAbs(dir) {
-		dir = filepath.Join(verifRoot(), dir)
+	} else {
+		dir = harnessPath(dir)
 	}
 	tags := u.Tags
 	if tags == "" {
@@ -262,10 +262,7 @@ func startWorker(self string, u *Unit) (*workerProc, error) {
 	}
 	var ovs []string
 	for _, o := range u.Overlay {
-		if !filepath.IsAbs(o) {
-			o = filepath.Join(verifRoot(), o)
-		}
-		ovs = append(ovs, o)
+		ovs = append(ovs, harnessPath(o))
 	}
 	cmd := exec.Command(self, "worker", "-dir", dir, "-pkg", u.Pkg, "-overlay", strings.Join(ovs, ","), "-tags", tags)
 	cmd.Env = append(os.Environ(), "GOMEMLIMIT=3GiB", "GOMAXPROCS=4", "GOFLAGS=-mod=mod", "GOPROXY=off", "GOSUMDB=off", "GOTOOLCHAIN=local")
@@ -338,6 +335,43 @@ func repoRoot() string {
 		return r
 	}
 	return "/repo"
+}
+
+// harnessPath resolves a path of a spec (unit dir, overlay dir) relative to /verif. Under VF_REPO the external harness
+// module (hmod, whose go.mod points at /repo) is used through a scratch copy whose replace directive points at the
+// scratch worktree instead.
+var hmodCopy string
+
+func harnessPath(p string) string {
+	if !filepath.IsAbs(p) {
+		p = filepath.Join(verifRoot(), p)
+	}
+	r := os.Getenv("VF_REPO")
+	hm := filepath.Join(verifRoot(), "hmod")
+	if r == "" || !(p == hm || strings.HasPrefix(p, hm+"/")) {
+		return p
+	}
+	if hmodCopy == "" {
+		hmodCopy = strings.TrimRight(r, "/") + ".hmod"
+		os.RemoveAll(hmodCopy)
+		filepath.Walk(hm, func(path string, info os.FileInfo, err error) error {
+			if err != nil {
+				return nil
+			}
+			dst := filepath.Join(hmodCopy, strings.TrimPrefix(path, hm))
+			if info.IsDir() {
+				os.MkdirAll(dst, 0o755)
+				return nil
+			}
+			b, _ := os.ReadFile(path)
+			if filepath.Base(path) == "go.mod" {
+				b = []byte(strings.ReplaceAll(string(b), "=> /repo", "=> "+r))
+			}
+			os.WriteFile(dst, b, 0o644)
+			return nil
+		})
+	}
+	return hmodCopy + strings.TrimPrefix(p, hm)
 }
 
 func verifRoot() string {
